@@ -72,6 +72,22 @@ def random_tree(rng, size, max_depth=30, names=None, text_alph=ALPH, p_ns=0.25, 
     return root
 
 
+def wide_tree(rng, fanout=None, names=None):
+    """A node with many children (10 to 40: more than one decimal digit of positions), a good part of which have children and
+    grandchildren of their own - the shape of a dataset with dozens of creators, keyword sets and entities."""
+    fanout = fanout or rng.choice([11, 12, 20, 35])
+    root = Node(rng.choice(names) if names else "dataset")
+    for i in range(fanout):
+        c = Node(rng.choice(names) if names else rng.choice(["creator", "keywordSet", "dataTable", "title"]), content=None if rng.random() < 0.5 else f"c{i}")
+        root.add_child(c)
+        for j in range(rng.choice([0, 1, 2, 3, 12])):
+            g = Node("g", content=f"{i}.{j}")
+            c.add_child(g)
+            if rng.random() < 0.3:
+                g.add_child(Node("h"))
+    return root
+
+
 def nsmap_invariant_holds(root):
     """The quantifier's precondition of C06: every node's prefixes include its parent's."""
     stack = [root]
